@@ -43,6 +43,7 @@ type simulator struct {
 	mu        sync.Mutex
 	ports     [simHosts + 1]int
 	host443   string        // "127.1.A.B" when its port 443 could be bound (A.B derived from the port base), else ""
+	host6     string        // "[::1]:port" (port base + 10) when the IPv6 loopback could be bound, else ""
 	hostMode  [simHosts]int // 0 normal, 1 accept but never handshake, 2 close right after accept
 	world     map[string]simEntry
 	log       []simReq
@@ -56,6 +57,9 @@ var sim *simulator
 func simHostPort(i int) string {
 	if i == simHosts {
 		return sim.host443 // the host that is reached on the DEFAULT port: no port in its URLs
+	}
+	if i == simHosts+1 {
+		return sim.host6 // an IPv6 literal: brackets in URLs and in the Host header
 	}
 	return "127.0.0." + strconv.Itoa(i+1) + ":" + strconv.Itoa(sim.ports[i])
 }
@@ -87,7 +91,7 @@ func startSim() *simulator {
 		leafTmpl.IPAddresses = append(leafTmpl.IPAddresses, net.ParseIP("127.0.0."+strconv.Itoa(i+1)))
 	}
 	addr443 := "127.1." + strconv.Itoa((base>>8)&255) + "." + strconv.Itoa(base&255)
-	leafTmpl.IPAddresses = append(leafTmpl.IPAddresses, net.ParseIP(addr443))
+	leafTmpl.IPAddresses = append(leafTmpl.IPAddresses, net.ParseIP(addr443), net.ParseIP("::1"))
 	leafDER, err := x509.CreateCertificate(rand.Reader, leafTmpl, caCert, &leafKey.PublicKey, caKey)
 	if err != nil {
 		panic(err)
@@ -112,6 +116,10 @@ func startSim() *simulator {
 	if ln, err := net.Listen("tcp", addr443+":443"); err == nil {
 		s.host443 = addr443
 		go s.serve(simHosts, ln)
+	}
+	if ln, err := net.Listen("tcp", "[::1]:"+strconv.Itoa(base+10)); err == nil {
+		s.host6 = "[::1]:" + strconv.Itoa(base+10)
+		go s.serve(simHosts+1, ln)
 	}
 	cl, err := net.Listen("tcp", "127.0.0.1:"+strconv.Itoa(base+simHosts))
 	if err != nil {
